@@ -113,31 +113,40 @@ func checkC18(w *World, r *Report) {
 
 	// ---- PER JOB
 	if is := w.FuncByRole("", "(*PipelineRunner).initScheduler", func(f *ssa.Function) bool { return callsNamed(f, "taskctl.NewScheduler") }); is != nil {
+		// on every path that creates a scheduler: one task runner made by the factory for the job,
+		// the scheduler built on that runner, both stored on that job (the function may be the
+		// start function itself when the initialiser was inlined)
 		pr := w.EnumPaths(is, EnumOpts{})
-		ok := len(pr.Paths) == 1
-		if ok {
-			p := pr.Paths[0]
+		n := 0
+		ok := !pr.Truncated
+		for _, p := range pr.Paths {
 			newRunner, newSched, stored := 0, 0, 0
-			runnerAP := ""
+			jobAP := ""
+			schedOK := true
 			for _, e := range p.Effects {
-				if e.Kind == "call" && strings.HasPrefix(e.Target, "dyn:recv.createTaskRunner") && e.Val == "arg0" {
+				if e.Kind == "call" && e.Target == "dyn:recv.createTaskRunner" {
 					newRunner++
-					runnerAP = e.Target + "(" + e.Val + ")"
+					jobAP = e.Val
 				}
 				if e.Kind == "call" && strings.HasSuffix(e.Target, "taskctl.NewScheduler") {
 					newSched++
-					if !strings.Contains(e.Val, "createTaskRunner(arg0)") {
-						ok = false
+					if !strings.Contains(e.Val, "createTaskRunner("+jobAP+")") {
+						schedOK = false
 					}
 				}
-				if e.Kind == "store" && (e.Target == "arg0.taskRunner" || e.Target == "arg0.sched") {
+				if e.Kind == "store" && jobAP != "" && (e.Target == jobAP+".taskRunner" || e.Target == jobAP+".sched") {
 					stored++
 				}
 			}
-			_ = runnerAP
-			ok = ok && newRunner == 1 && newSched == 1 && stored == 2
+			if newSched == 0 {
+				continue
+			}
+			n++
+			if !(schedOK && newRunner == 1 && newSched == 1 && stored == 2 && strings.HasPrefix(jobAP, "arg")) {
+				ok = false
+			}
 		}
-		r.Check(ok, "per-job.runner-and-scheduler", FuncName(is)+": one runner and scheduler per job", w.Pos(is.Pos()), "creates a task runner for this job, a scheduler on that runner, and stores both on the job", "initScheduler does not create exactly one task runner and one scheduler per job: jobs would share environment, variables or cancellation")
+		r.Check(ok && n > 0, "per-job.runner-and-scheduler", FuncName(is)+": one runner and scheduler per job", w.Pos(is.Pos()), "creates a task runner for this job, a scheduler on that runner, and stores both on the job", "initScheduler does not create exactly one task runner and one scheduler per job: jobs would share environment, variables or cancellation")
 	}
 	// no package-level mutable containers / runners
 	for _, p := range w.Prog.AllPackages() {
@@ -209,7 +218,7 @@ func checkC18(w *World, r *Report) {
 			r.Viol("reserved.guard", FuncName(gb)+": job variables", w.Pos(gb.Pos()), "job variables are never set on the stage")
 		}
 		// the reserved variable is the job's own id
-		okID := false
+		okID, idFromJob := false, false
 		allInstrs(vfn, func(in ssa.Instruction) {
 			mu, ok := in.(*ssa.MapUpdate)
 			if !ok || w.AP(mu.Key) != "\"__jobID\"" {
@@ -229,6 +238,14 @@ func checkC18(w *World, r *Report) {
 			if p, ok := idv.(*ssa.Parameter); ok && p.Parent() == gb && paramIdxOf(p) == 0 {
 				okID = true
 			}
+			// … or the ID field of the builder's job parameter
+			if ap := w.AP(idv); strings.HasSuffix(ap, ".ID") {
+				for i, prm := range gb.Params {
+					if ap == fmt.Sprintf("arg%d.ID", i) && strings.HasSuffix(shapeString(prm.Type()), "PipelineJob") {
+						okID, idFromJob = true, true
+					}
+				}
+			}
 		})
 		var call *ssa.Call
 		if ro.Start != nil {
@@ -238,7 +255,7 @@ func checkC18(w *World, r *Report) {
 				}
 			})
 		}
-		okArg := call != nil && w.AP(call.Call.Args[0]) == "arg0.ID"
+		okArg := call != nil && (w.AP(call.Call.Args[0]) == "arg0.ID" || idFromJob && w.AP(call.Call.Args[0]) == "arg0")
 		r.Check(okID && okArg, "reserved.own-id", vname+": reserved variable = the job's own id", w.Pos(vfn.Pos()), "__jobID ← id.String() with id = job.ID at the call", "the job-identity variable is not set from the job's own id")
 		// a fresh container per stage: the FromMap call (or the call of the helper that makes it) lies in the stage loop
 		inLoop := false
